@@ -3,8 +3,12 @@
 package main
 
 import (
+	"bytes"
+	"context"
 	"fmt"
+	"io"
 	"net"
+	"os"
 	"strings"
 
 	"github.com/gokrazy/rsync/rsyncd"
@@ -159,10 +163,46 @@ func aclOpLine(rules []string, remote string) string {
 	return strings.Join(parts, " ") + " #" + strings.Join(rules, "|") + "@" + remote
 }
 
+// daemonACL asks the real daemon (public API only: NewServer, NewConnection with the peer's address,
+// HandleDaemonConn) for module "m" guarded by the rules, as a peer at `remote`, and classifies the reply —
+// the observation point the property names: "@RSYNCD: OK" vs "@ERROR".
+func daemonACL(rules []string, remote string, dir string) string {
+	srv, err := rsyncd.NewServer([]rsyncd.Module{{Name: "m", Path: dir, ACL: rules}}, rsyncd.DontRestrict(), rsyncd.WithStderr(io.Discard))
+	if err != nil {
+		return "other:NewServer: " + err.Error()
+	}
+	var out bytes.Buffer
+	srv.HandleDaemonConn(context.Background(), rsyncd.NewConnection(strings.NewReader("@RSYNCD: 27\nm\n"), &out, remote))
+	lines := strings.Split(out.String(), "\n")
+	if len(lines) < 2 {
+		return "other:no reply"
+	}
+	reply := lines[1]
+	switch {
+	case reply == "@RSYNCD: OK":
+		if strings.Contains(out.String(), "@ERROR") && !strings.Contains(strings.Join(lines[2:], "\n"), "@ERROR") {
+			return "other:" + reply
+		}
+		return "allow"
+	case strings.HasPrefix(reply, "@ERROR: access denied"):
+		return "denied"
+	case strings.HasPrefix(reply, "@ERROR: invalid acl"):
+		return "malformed"
+	case strings.HasPrefix(reply, "@ERROR: BUG: invalid remote"):
+		return "badaddr"
+	}
+	return "other:" + reply
+}
+
 func suiteACL(h *H) {
+	aclDir, err := os.MkdirTemp("", "verif-acl")
+	if err != nil {
+		panic(err)
+	}
+	defer os.RemoveAll(aclDir)
 	run := func(rules []string, remote string) {
 		op := aclOpLine(rules, remote)
-		got := classifyACL(rsyncd.VerifCheckACL(rules, remote))
+		got := daemonACL(rules, remote, aclDir)
 		want := refACL(rules, remote)
 		verdict := ""
 		if want != "skip" && got != want {
